@@ -16,6 +16,7 @@ DECIDED = ("R1 the per-square castling-right masks equal their definition for al
            "if castling}; castling rights are reduced by (opponent, dest) and (mover, source); side to move flips; the en-passant marker is cleared and set to the destination "
            "file exactly on a non-promoting pawn double step; the half-move clock is 0 on a capture or pawn move and old+1 otherwise; the full-move number grows by 1 exactly "
            "after Black; R6 the checked operations call the unchecked one only under is_legal(mv) of the same board and move, and on refusal store nothing and return false/None.")
+DECIDED = DECIDED + " R1/R2 also: the castling rights of the successor are read off the final value of the field - the mover's rights and-ed with exactly the masks (opponent, dest) and (mover, source) - whatever helper did it (`&mut self` method, by-value method returning Self, code in place); every function that reads the per-square mask table computes rights & MASK[colour][square]."
 NOT_DECIDED = ("that the xor arithmetic on concrete boards yields the prescribed placement for every legal move (the semantics of the toggles on real positions, e.g. that "
                "`mv_bb & PAWN_DOUBLE_MOVE[turn] == mv_bb` holds exactly for double steps, rests on C09's constants and on legality of the move); "
                "'accept exactly the legal moves' reduces to C01 through R6")
